@@ -96,6 +96,35 @@ def is_exc(x):
     return isinstance(x, Exc)
 
 
+class Held(object):
+    """
+    Results the caller keeps: what an evaluation returned belongs to the
+    caller and must not change when the object is used again.
+    """
+    def __init__(self, cap=4):
+        self.items = []
+        self.cap = cap
+
+    def keep(self, what, obj):
+        if is_exc(obj) or obj is None:
+            return
+        try:
+            snap = copy.deepcopy(obj)
+        except Exception:
+            return
+        self.items.append((what, obj, snap))
+        del self.items[:-self.cap]
+
+    def verify(self, step):
+        for what, obj, snap in self.items:
+            if not identical(obj, snap):
+                raise Violation(
+                    'result_overwritten', 'by_later_call',
+                    'the result of %s, kept by the caller, has changed '
+                    'after later calls:\n was: %s\n now: %s' % (
+                        what, short(snap, 300), short(obj, 300)), step)
+
+
 def _scalar(v):
     return v is None or isinstance(v, (str, bool, int, float, np.number,
                                        np.bool_))
